@@ -265,7 +265,7 @@ Definition len_serialized (b : body) : Z :=
   | BInfoDst _ => 12
   | BInfoSrc _ _ _ _ _ => 20
   (* no len_serialized / create_submessage in the code; a constructor has to count the bytes *)
-  | BHeartbeatFrag _ _ _ _ _ => 28
+  | BHeartbeatFrag _ _ _ _ _ => 24
   | BInfoReply _ _ => len (enc_body LE b)
   end.
 
